@@ -71,6 +71,13 @@ func Gen(rt *rapid.T, run *ev.Run, nInputs int, nullableHeavy bool) *Case {
 			seen[key] = true
 			c.Inputs = append(c.Inputs, w)
 		}
+		if p.HasRecursion() && rapid.IntRange(0, 5).Draw(rt, "long") == 0 {
+			// one long sentence: deep stacks, lists of hundreds of elements
+			if w := cfggen.LongSentence(rt, p, rapid.IntRange(150, 700).Draw(rt, "longlen")); len(w) >= 100 && len(w) <= 3000 {
+				c.Inputs = append(c.Inputs, w)
+				run.Class("gen:long-sentence")
+			}
+		}
 		return c
 	}
 	return nil
